@@ -14,6 +14,8 @@ use ckb_network::{
 #[derive(Clone, Debug)]
 pub struct Sent {
     pub seq: u64,
+    /// virtual time (ckb_systemtime under faketime) at which the client handed the message to the network
+    pub at: u64,
     pub proto: ProtocolId,
     pub peer: PeerIndex,
     pub data: P2pBytes,
@@ -68,7 +70,7 @@ impl RecNet {
         g.seq += 1;
         g.total_sent += 1;
         let seq = g.seq;
-        g.outbox.push(Sent { seq, proto: p, peer: i, data: d });
+        g.outbox.push(Sent { seq, at: ckb_systemtime::unix_time_as_millis(), proto: p, peer: i, data: d });
     }
 }
 
